@@ -89,6 +89,44 @@ type c12Sheet struct {
 	OldOK      bool       // expressible in the historical format (no parameter)
 	Decorated  bool       // CSV written with comments, upper case, spaces after commas, an extra column
 	SafetyOnly bool       // delimiter / rescue extraction: safety clause only
+	Opt        *c12Opt    // options given to ExtractMultiBarcodeSliceWorker / on the command line (Sem already includes them)
+	Shared     bool       // several markers share a primer: the reader may reject the sheet; if it accepts it the clauses apply
+	NoEnum     bool       // built on the fly (parameter model): not part of the read enumeration
+}
+
+// c12Opt: the options of obimultiplex that change the matching (-e / --allowed-mismatches, --with-indels).
+type c12Opt struct {
+	E      int  `json:"e"` // < 0: option not given
+	Indels bool `json:"indels"`
+}
+
+func (o *c12Opt) suffix() string {
+	s := ""
+	if o.E >= 0 {
+		s += fmt.Sprintf("+e%d", o.E)
+	}
+	if o.Indels {
+		s += "+indels"
+	}
+	return s
+}
+
+// c12withOpt derives the sheet as demultiplexed under command line options: -e N sets the budget of every
+// primer to N whatever the sheet says, --with-indels allows indels for every primer.
+func c12withOpt(sh *c12Sheet, o c12Opt) *c12Sheet {
+	d := *sh
+	d.Opt = &o
+	d.Name = sh.Name + o.suffix()
+	d.Sem = append([]c12Sem{}, sh.Sem...)
+	for i := range d.Sem {
+		if o.E >= 0 {
+			d.Sem[i].BudF, d.Sem[i].BudR = o.E, o.E
+		}
+		if o.Indels {
+			d.Sem[i].IndelF, d.Sem[i].IndelR = true, true
+		}
+	}
+	return &d
 }
 
 const (
@@ -181,7 +219,65 @@ func c12Sheets() []*c12Sheet {
 			ExtraF:  []string{"cgc", "cgttc", "tttt", "cgac"}, ExtraR: []string{"tgt", "tggct", "cccc", "tgat"}}},
 		Params: [][]string{{"forward_tag_delimiter", "A"}, {"reverse_tag_delimiter", "a"}, {"spacer", "2"}, {"tag_indels", "1"}, {"matching", "indel"}},
 		Sem:    []c12Sem{s7b}})
+	// S8: indels for the forward primer only (per-primer form), hamming, forward spacer only, budgets 2 / 1
+	s8 := c12defSem()
+	s8.MatchF, s8.MatchR, s8.IndelF, s8.SpF, s8.BudR = "hamming", "hamming", true, 1, 1
+	out = append(out, &c12Sheet{Name: "S8-forward-indels-hamming",
+		Markers: []c12Marker{{F: c12F1, R: c12R1,
+			Samples: []c12Sample{{"aacg", "ttgc", "s8a", "e1"}, {"aatg", "ggta", "s8b", "e1"}, {"ccta", "ggta", "s8c", "e1"}},
+			ExtraF:  []string{"aaag", "tgtg"}, ExtraR: []string{"gtta", "acac"}}},
+		Params: [][]string{{"matching", "hamming"}, {"indels", strings.ToUpper(c12F1), "true"}, {"forward_spacer", "1"}, {"reverse_mismatches", "1"}},
+		Sem:    []c12Sem{s8}})
+	// S9: two markers, indels for every reverse primer + the forward primer of marker 2 (per side and per
+	// primer forms), budget 1, spacer 1 for the reverse primer of marker 1
+	s9a := c12defSem()
+	s9a.IndelR, s9a.BudF, s9a.BudR, s9a.SpR = true, 1, 1, 1
+	s9b := c12defSem()
+	s9b.IndelF, s9b.IndelR, s9b.BudF, s9b.BudR = true, true, 1, 1
+	out = append(out, &c12Sheet{Name: "S9-reverse-indels-two-markers",
+		Markers: []c12Marker{
+			{F: c12F1, R: c12R1,
+				Samples: []c12Sample{{"aacg", "ttgc", "s9a", "e1"}, {"ccat", "ggta", "s9b", "e1"}},
+				ExtraF:  []string{"tgtg"}, ExtraR: []string{"acac"}},
+			{F: c12F2, R: c12R2,
+				Samples: []c12Sample{{"acgtca", "tgcat", "s9c", "e2"}, {"gatcgt", "catgc", "s9d", "e2"}},
+				ExtraF:  []string{"ttttgg"}, ExtraR: []string{"ggaaa"}}},
+		Params: [][]string{{"reverse_indels", "true"}, {"indels", c12F2, "true"}, {"primer_mismatches", "1"}, {"spacer", c12R1, "1"}},
+		Sem:    []c12Sem{s9a, s9b}})
+	// S10: three markers sharing their primers two by two (F1/R1, F1/R2, F2/R1). The readers are allowed to
+	// refuse such a sheet (CheckPrimerUnicity); a sheet they accept is demultiplexed as the statement says.
+	out = append(out, &c12Sheet{Name: "S10-shared-primers", OldOK: true, Shared: true,
+		Markers: []c12Marker{
+			{F: c12F1, R: c12R1,
+				Samples: []c12Sample{{"aacg", "ttgc", "s10a", "e1"}, {"ccat", "ggta", "s10b", "e1"}},
+				ExtraF:  []string{"tgtg"}, ExtraR: []string{"acac"}},
+			{F: c12F1, R: c12R2,
+				Samples: []c12Sample{{"aacg", "ttgc", "s10c", "e2"}, {"ccat", "ggta", "s10d", "e2"}},
+				ExtraF:  []string{"tgtg"}, ExtraR: []string{"acac"}},
+			{F: c12F2, R: c12R1,
+				Samples: []c12Sample{{"aacg", "ttgc", "s10e", "e3"}, {"ccat", "ggta", "s10f", "e3"}},
+				ExtraF:  []string{"tgtg"}, ExtraR: []string{"acac"}}},
+		Sem: []c12Sem{c12defSem(), c12defSem(), c12defSem()}})
+	// the command line options -e / --with-indels (given to ExtractMultiBarcodeSliceWorker) on top of a sheet
+	byName := map[string]*c12Sheet{}
+	for _, sh := range out {
+		byName[sh.Name] = sh
+	}
+	for _, v := range c12OptVariants {
+		out = append(out, c12withOpt(byName[v.Sheet], v.Opt))
+	}
 	return out
+}
+
+var c12OptVariants = []struct {
+	Sheet string
+	Opt   c12Opt
+}{
+	{"S1-basic", c12Opt{E: 0}}, {"S1-basic", c12Opt{E: 1}}, {"S1-basic", c12Opt{E: 3}},
+	{"S1-basic", c12Opt{E: -1, Indels: true}}, {"S1-basic", c12Opt{E: 1, Indels: true}},
+	{"S2-two-markers", c12Opt{E: 1, Indels: true}},
+	{"S4-hamming", c12Opt{E: 2}}, {"S4-hamming", c12Opt{E: -1, Indels: true}},
+	{"S5-levenshtein-per-primer", c12Opt{E: 1}},
 }
 
 func (m *c12Marker) hasF() bool { return m.Samples[0].TagF != "" }
@@ -248,6 +344,9 @@ func (sh *c12Sheet) csvText() string {
 }
 
 func (sh *c12Sheet) formats() []string {
+	if sh.Opt != nil {
+		return []string{"csv"} // the options act after the sheet is read: one reader is enough
+	}
 	if sh.OldOK {
 		return []string{"old", "csv", "csv-direct"}
 	}
